@@ -22,7 +22,9 @@ from mc import util
 
 ID = 'C13'
 LEVEL = 'fault_enumeration'
-RULE = ('decision table = 20 callable kinds x 5 argument shapes x 4 option values x 3 context statuses, all enumerated; fault points '
+RULE = ('decision table = 24 callable kinds x 5 argument shapes x 4 option values x 3 context statuses, all enumerated; call sequences '
+        'of length 2 = every ordered pair of (kind, options) sharing the conversion and allow-list caches (second call must behave as '
+        'it does alone); fault points '
         '= every call boundary of malt/{pyct,converters,core,impl,operators} recorded during a fault-free conversion of 3 targets '
         '(plain function, bound method, function with a nested def), deduplicated to (callee, caller line, occurrence <= 2): stage '
         'points x 12 exception types, fine points x {ValueError, UnsupportedLanguageElementError} (quick: every 8th fine point, '
@@ -30,7 +32,25 @@ RULE = ('decision table = 20 callable kinds x 5 argument shapes x 4 option value
 ASSUMPTIONS = ['"was it converted" is observed as: _convert_actual was entered for the target and returned', 'warnings are counted at ag_logging.warning']
 
 SRC = '''
+import functools
+
 COUNTS = []
+
+
+def passthrough(fn):
+    @functools.wraps(fn)
+    def inner(*a, **k):
+        return fn(*a, **k)
+    return inner
+
+
+def localgen(a, b=2, *rest, **kw):
+    COUNTS.append('localgen')
+
+    def g():
+        for j in (a, b):
+            yield j
+    return ('localgen', list(g()), rest, sorted(kw.items()))
 
 
 def plain(a, b=2, *rest, **kw):
@@ -91,12 +111,18 @@ def nested(a, b=2, *rest, **kw):
 
 KINDS = ('function', 'lambda', 'bound_method', 'unbound_method', 'classmethod', 'staticmethod', 'callable_object', 'class',
          'partial', 'nested_partial', 'builtin', 'builtin_kw', 'c_function', 'exec_defined', 'generator', 'lru_cache', 'namedtuple',
-         'allowlisted_module', 'converted_artifact', 'do_not_convert')
+         'allowlisted_module', 'converted_artifact', 'do_not_convert',
+         # a C-implemented bound method that merely has the *name* of a supported builtin; a function whose local generator
+         # yields inside control flow (rejected by the feature check: runs as it is, with one warning); two wrappers made by
+         # the same functools.wraps decorator (one code object): around an allow-listed function / around a user function
+         'c_method_builtin_name', 'local_generator', 'wraps_allowlisted', 'wraps_user')
 SHAPES = ('args', 'kwargs_none', 'kwargs_empty', 'kwargs', 'star')
 OPTS = ((True, False, True), (False, False, False), (True, True, True), (False, True, True))   # (recursive, user_requested, icuc)
 STATUSES = ('UNSPECIFIED', 'ENABLED', 'DISABLED')
 CONVERTIBLE = ('function', 'lambda', 'bound_method', 'unbound_method', 'classmethod', 'staticmethod', 'callable_object', 'partial',
-               'nested_partial')
+               'nested_partial', 'wraps_user')
+NO_EXTRA_ARGS = ('builtin', 'builtin_kw', 'c_function', 'lru_cache', 'namedtuple', 'allowlisted_module', 'c_method_builtin_name',
+                 'wraps_allowlisted')
 _S = {'tier': 'quick'}
 
 
@@ -147,6 +173,14 @@ def items(tier, seed):
     for o in range(len(OPTS)):
       for st in STATUSES:
         yield ('modrow', mname, o, st)
+  # every ordered pair of (kind, options) calls sharing the caches
+  for st in (('UNSPECIFIED',) if tier == 'quick' else STATUSES):
+    for sh in (('kwargs',) if tier == 'quick' else ('kwargs', 'args')):
+      for k1 in KINDS:
+        for o1 in range(len(OPTS)):
+          for k2 in KINDS:
+            for o2 in range(len(OPTS)):
+              yield ('pair', k1, o1, k2, o2, st, sh)
   for target in ('function', 'bound_method', 'nested'):
     yield ('faults', target, 'stage')
     stride = 8 if tier == 'quick' else 1
@@ -274,6 +308,16 @@ def make_callable(kind):
     return _S['artifact'], 'plain'
   if kind == 'do_not_convert':
     return _S['dnc'], 'plain'
+  if kind == 'c_method_builtin_name':
+    import decimal
+    return decimal.Context(prec=2).abs, None
+  if kind == 'local_generator':
+    return mod.localgen, 'localgen'
+  if kind == 'wraps_allowlisted':
+    import copy
+    return mod.passthrough(copy.copy), None
+  if kind == 'wraps_user':
+    return mod.passthrough(mod.plain), 'plain'
   raise ValueError(kind)
 
 
@@ -289,8 +333,11 @@ def call_args(kind, shape):
     base, kw = (1,), {'b': 3}
   elif kind == 'namedtuple':
     base, kw = (1,), {'b': 3}
-  elif kind == 'allowlisted_module':
+  elif kind in ('allowlisted_module', 'wraps_allowlisted'):
     base, kw = ([1, 2],), {}
+  elif kind == 'c_method_builtin_name':
+    import decimal
+    base, kw = (decimal.Decimal('-1.2345'),), {}
   elif kind in ('partial', 'nested_partial'):
     base, kw = (4,), {'b': 6, 'z': 1} if kind == 'partial' else {'z': 2, 'w': 3}
   else:
@@ -298,16 +345,17 @@ def call_args(kind, shape):
   if shape == 'args':
     return base, None
   if shape == 'kwargs_none':
-    return base + ((5,) if kind not in ('builtin', 'builtin_kw', 'c_function', 'lru_cache', 'namedtuple', 'allowlisted_module') else ()), None
+    return base + ((5,) if kind not in NO_EXTRA_ARGS else ()), None
   if shape == 'kwargs_empty':
     return base, {}
   if shape == 'kwargs':
-    if kind in ('builtin', 'c_function', 'allowlisted_module'):
+    if kind in ('builtin', 'c_function', 'allowlisted_module', 'c_method_builtin_name', 'wraps_allowlisted'):
       return base, {}
     return base, dict(kw)
   if shape == 'star':
-    star = (7, 8) if kind not in ('builtin', 'builtin_kw', 'c_function', 'lru_cache', 'namedtuple', 'allowlisted_module') else ()
-    return tuple(base) + star, (dict(kw) if kind not in ('builtin', 'c_function', 'allowlisted_module') else None)
+    star = (7, 8) if kind not in NO_EXTRA_ARGS else ()
+    return tuple(base) + star, (dict(kw) if kind not in ('builtin', 'c_function', 'allowlisted_module', 'c_method_builtin_name',
+                                                         'wraps_allowlisted') else None)
   raise ValueError(shape)
 
 
@@ -328,6 +376,9 @@ def expected_converted(kind, opt, status):
   rec, ur, icuc = opt
   if status == 'DISABLED':
     return False
+  if kind == 'wraps_allowlisted':
+    # functools.wraps copies __module__ ('copy'): allow-listed by the module rule unless the conversion is user requested
+    return bool(icuc and ur)
   if kind not in CONVERTIBLE:
     return False
   if not icuc:
@@ -335,7 +386,7 @@ def expected_converted(kind, opt, status):
   return True
 
 
-def check_row(item, double_call=False):
+def check_row(item, double_call=False, reset=True, remembered=False):
   from malt.core import ag_ctx, converter
   from malt.impl import api, conversion
   _, kind, shape, oi, status = item
@@ -351,8 +402,9 @@ def check_row(item, double_call=False):
   args = prefix + tuple(args)
   opt = OPTS[oi]
   options = converter.ConversionOptions(recursive=opt[0], user_requested=opt[1], internal_convert_user_code=opt[2], optional_features=None)
-  api._TRANSPILER = api.PyToPy()
-  conversion._ALLOWLIST_CACHE = type(conversion._ALLOWLIST_CACHE)()
+  if reset:
+    api._TRANSPILER = api.PyToPy()
+    conversion._ALLOWLIST_CACHE = type(conversion._ALLOWLIST_CACHE)()
   viol = []
   counts = _S['mod'].COUNTS
   del counts[:]
@@ -400,9 +452,23 @@ def check_row(item, double_call=False):
   exp = expected_converted(kind, opt, status)
   if was != exp:
     viol.append(('policy', 'converted=%s, the documented rules say %s' % (was, exp)))
-  if _S['warnings'] and not (kind == 'generator' and opt[1]):
+  if kind == 'local_generator':
+    # the feature check rejects it: one warning per (function, options) when a conversion is attempted, remembered afterwards
+    exp_w = 1 if (status != 'DISABLED' and opt[2] and not remembered) else 0
+    if len(_S['warnings']) != exp_w:
+      viol.append(('warning', '%d warnings, expected %d' % (len(_S['warnings']), exp_w)))
+  elif _S['warnings'] and not (kind == 'generator' and opt[1]):
     viol.append(('warning', 'unexpected warning: %s' % _S['warnings'][0][:120]))
   return viol, (got, was)
+
+
+def check_pair(item):
+  """Two calls through the wrapper without resetting the caches in between: whatever the first call left behind (conversion
+  cache, allow-list cache, state of the callable), the second call must behave exactly as it does on its own."""
+  _, k1, o1, k2, o2, status, shape = item
+  check_row(('row', k1, shape, o1, status))
+  viol, obs = check_row(('row', k2, shape, o2, status), reset=False, remembered=(k1 == k2 and o1 == o2))
+  return viol, obs
 
 
 # --- fault enumeration ---------------------------------------------------------
@@ -594,6 +660,12 @@ def check(item):
     out = [util.V('%s|module=%s|opts=%s|%s' % (k, item[1], OPTS[item[2]], item[3]), '%s: %s' % (k, m), item) for k, m in viol]
     return {'viol': out, 'n': {'evaluations': 1, 'table_rows': 1}, 'outcome': repr(item), 'nontrivial': repr(item),
             'sample': {'row': list(item)}}
+  if item[0] == 'pair':
+    viol, obs = check_pair(item)
+    out = [util.V('after-%s-%s|%s|%s|%s|opts=%s|%s' % (item[1], OPTS[item[2]], k, item[3], item[6], OPTS[item[4]], item[5]),
+                  'after a call of %s with %s: %s: %s' % (item[1], OPTS[item[2]], k, m), item) for k, m in viol]
+    return {'viol': out, 'n': {'evaluations': 2, 'call_pairs': 1}, 'outcome': repr((item, obs)), 'nontrivial': repr(item),
+            'sample': {'pair': list(item), 'observed': repr(obs)[:200]}}
   if item[0] == 'row':
     viol, obs = check_row(item)
     out = [util.V('%s|%s|%s|opts=%s|%s' % (k, item[1], item[2], OPTS[item[3]], item[4]), '%s: %s' % (k, m), item) for k, m in viol]
